@@ -96,6 +96,10 @@ def configs(tier):
                 for mode in modes:
                     out.append(dict(entry='Gillespie_simple_contagion', spec=spec, graph=g, directed=directed, ic=ic, mode=mode, full=False,
                                     max_expo=E, truncate=True, wstub='abstract', tmax='inf', tags=[spec, g, mode]))
+                    if mode == 'plain' and g in ('P3', 'D:3:01,12') and spec in ('SIS', 'SIR', 'SEIR'):
+                        # the documentation allows the transition graphs to mention only the statuses that have such a transition
+                        out.append(dict(entry='Gillespie_simple_contagion', spec=spec, graph=g, directed=directed, ic=ic, mode=mode, full=False, minimal_spec=True,
+                                        max_expo=E, truncate=True, wstub='abstract', tmax='inf', tags=[spec, g, mode, 'minimal-spec']))
     return out
 
 
@@ -147,7 +151,8 @@ def build(cfg):
             if mode == 'weight_label':
                 r.G.edges[u, v]['ewl'] = w
     H = nx.DiGraph()
-    H.add_nodes_from(statuses)
+    if not cfg.get('minimal_spec'):
+        H.add_nodes_from(statuses)
     J = nx.DiGraph()
     for (A, B, nm) in spont:
         kw = {'rate': rates[nm]}
